@@ -10,7 +10,7 @@ ANCHORS = ["pyoma2.functions.fdd:SD_est"]
 REQUIRED_MONITORS = ["grid+shape", "welch-equivalence(per)", "hermitian-psd(per)", "bilinear+g2(per)", "bilinear+g2(cor)", "parseval(per)",
                      "gain-delay(per)", "gain-delay(cor)", "sinusoid-ratio(per)"]
 ALL_STATES = ["pov=0", "pov=0.25", "pov=0.5", "pov=0.75", "ref=all", "ref=subset", "nxseg not a power of two", "nxseg with a prime factor > 5", "negative gain", "1 channel"]
-REQUIRED_STATES = ["pov=0", "pov=0.25", "pov=0.75", "ref=subset", "negative gain", "nxseg with a prime factor > 5"]
+REQUIRED_STATES = ["pov=0", "pov=0.25", "pov=0.75", "ref=subset", "negative gain", "nxseg with a prime factor > 5", "odd nxseg"]
 RULE = ("random records (1..8 channels, 1..4 references, 2..10 segments), nxseg in {16..4096} incl. non powers of two, integer nxseg*pov, fs "
         "log-uniform; 'per' compared entry by entry with an independently written Welch estimate (lines >= 2); bilinearity/g^2, Hermitian PSD, "
         "Parseval; multi-channel gain-and-delay records (each entry (i,j) must show gain g_j/g_i and phase -2 pi f (d_j-d_i)/fs); sinusoids at "
@@ -47,8 +47,10 @@ def welch_ref(x, y, fs, nx, nov):
 
 def pick_nx_pov(rng, tier):
     nxs = [16, 28, 32, 48, 56, 64, 88, 100, 112, 128, 154, 200, 256, 512, 1022, 1024] + ([2048, 4094, 4096] if tier == "thorough" else [])
+    if rng.random() < 0.15:
+        nxs = [17, 25, 45, 125, 243, 625] + ([4095] if tier == "thorough" else [])  # odd segment lengths: the last line is below Nyquist
     nx = int(rng.choice(nxs))
-    povs = [p for p in (0.0, 0.25, 0.5, 0.75) if float(nx * p).is_integer()]
+    povs = [p for p in (0.0, 0.2, 0.25, 0.5, 0.75) if float(nx * p).is_integer() and (p != 0.2 or nx % 2)]
     return nx, float(rng.choice(povs))
 
 
@@ -126,6 +128,8 @@ def run_welch(ctx, rng):
                 ctx.check(herm <= 1e-12 and mineig >= -1e-12, "per:not_hermitian_psd", lambda: f"'per' with Yref=Yall: Hermitian defect {herm:.2e}, min eigenvalue {mineig:.2e} (relative)")
     ctx.state(f"pov={pov:g}")
     ctx.state("ref=all" if allref else "ref=subset")
+    if nx % 2:
+        ctx.state("odd nxseg")
     if nx & (nx - 1):
         ctx.state("nxseg not a power of two")
     r_ = nx
@@ -163,7 +167,7 @@ def run_parseval(ctx, rng):
 def run_delay(ctx, rng):
     from pyoma2.functions import fdd
 
-    nx = int(rng.choice([256, 512, 1024, 2048]))
+    nx = int(rng.choice([256, 512, 1024, 2048, 375, 1125]))
     fs = float(10 ** rng.uniform(0, 3))
     nch = int(rng.integers(2, 5))
     dmax = nx // 64
@@ -222,7 +226,7 @@ def run_delay(ctx, rng):
 def run_sinus(ctx, rng):
     from pyoma2.functions import fdd
 
-    nx = int(rng.choice([56, 64, 112, 128, 256, 512]))
+    nx = int(rng.choice([56, 64, 112, 128, 256, 512, 75, 125]))
     fs = float(10 ** rng.uniform(0, 3))
     k = int(rng.integers(2, nx // 2 - 1))
     nch = int(rng.integers(2, 6))
@@ -233,6 +237,9 @@ def run_sinus(ctx, rng):
     pov = float(rng.choice([0.0, 0.5, 0.75]))
     f, S = fdd.SD_est(Y, Y, 1 / fs, nx, method="per", pov=pov)
     ctx.ev("sinusoid-ratio(per)")
+    kk = int(np.argmax(np.abs(S[0, 0])))
+    ctx.check(kk == k and abs(f[kk] - k * fs / nx) <= 1e-9 * fs, "per:sinusoid_line_frequency",
+              lambda: f"a sinusoid at {k}*fs/nxseg = {k*fs/nx:.6g} Hz (nxseg={nx}) peaks at line {kk} labelled {f[kk]:.6g} Hz")
     r = S[0, :, k] / S[0, 0, k]
     err = np.max(np.abs(r - a / a[0]) / np.abs(a / a[0]))
     ctx.maxi("sinusoid-ratio(per): worst error", float(err))
